@@ -449,6 +449,22 @@ def f5_macros(tier: str, seed: int) -> Iterator[tuple[str, dict[str, Any]]]:
                                {"imports": ["./sub/l1.exps"], "macros": macros[:1], "routines": [("def", 0, body)],
                                 "files": {"sub/l1.exps": {"imports": ["../l2.exps"], "macros": macros[1:2]},
                                           "l2.exps": {"macros": macros[2:]}}})
+    # lookup paths: first existing candidate in the given order wins; relative and absolute imports ignore them
+    def lib(tag: str) -> dict[str, Any]:
+        return {"macros": [("macro", "m", [], [op(tag)])]}
+
+    body = [("macrocall", "m", []), ("ctrl", "end")]
+    yield "F5.lookup.first", {"imports": ["lib.exps"], "macros": [], "routines": [("def", 0, body)], "lookup": ["inc1", "inc2"],
+                              "files": {"inc1/lib.exps": lib("from1"), "inc2/lib.exps": lib("from2")}, "imported": ["inc1/lib.exps"]}
+    yield "F5.lookup.second", {"imports": ["lib.exps"], "macros": [], "routines": [("def", 0, body)], "lookup": ["inc1", "inc2"],
+                               "files": {"inc2/lib.exps": lib("from2"), "inc1/other.exps": lib("x")}, "imported": ["inc2/lib.exps"]}
+    yield "F5.lookup.order", {"imports": ["lib.exps"], "macros": [], "routines": [("def", 0, body)], "lookup": ["inc2", "inc1"],
+                              "files": {"inc1/lib.exps": lib("from1"), "inc2/lib.exps": lib("from2")}, "imported": ["inc2/lib.exps"]}
+    yield "F5.lookup.subdir", {"imports": ["sub/lib.exps"], "macros": [], "routines": [("def", 0, body)], "lookup": ["inc1"],
+                               "files": {"inc1/sub/lib.exps": lib("from1"), "sub/lib.exps": lib("local")},
+                               "imported": ["inc1/sub/lib.exps"]}
+    yield "F5.lookup.relative-wins", {"imports": ["./lib.exps"], "macros": [], "routines": [("def", 0, body)], "lookup": ["inc1"],
+                                      "files": {"inc1/lib.exps": lib("from1"), "lib.exps": lib("local")}, "imported": ["lib.exps"]}
     # parameter kinds
     kinds: list[Any] = [C("$VAR"), C("CONST"), 5, ("str", "text"), ("lstr", {"english": "e"}), ("dec", "1.5"),
                         ("pos", "m", "1", "2.5")]
